@@ -605,10 +605,10 @@ func c04Decoders(r *mon.R, lite bool) {
 					_ = g.Scalar().Mul(s, s)
 					_ = g.Scalar().Neg(s)
 					_ = g.Scalar().Sub(s, g.Scalar().One())
-					if !s.Equal(g.Scalar().Zero()) {
-						_ = g.Scalar().Inv(s)
-						_ = g.Scalar().Div(g.Scalar().One(), s)
-					}
+					// also for zero and other non-invertible residues: the result is unspecified, a panic is not allowed
+					_ = g.Scalar().Inv(s)
+					_ = g.Scalar().Div(g.Scalar().One(), s)
+					_ = g.Scalar().Div(s, s)
 					_ = s.Clone()
 					_ = g.Point().Mul(s, B)
 				})
